@@ -35,6 +35,13 @@ pub struct Task {
     pub blocked_on_sq: bool,
 }
 
+/// A `ReadBuf` held by the application, with its reference model.
+pub struct HeldBuf {
+    pub buf: a10::io::ReadBuf,
+    /// Byte vector with the capacity fixed at the pool's buffer size.
+    pub model: Vec<u8>,
+}
+
 /// What a scenario family looks like.
 #[derive(Clone)]
 pub struct Profile {
@@ -56,6 +63,10 @@ pub struct Profile {
     pub w_closefd: u32,
     pub w_relbuf: u32,
     pub w_stdio: u32,
+    pub w_edit: u32,
+    pub w_bufio: u32,
+    /// Adjust the drawn kernel configuration.
+    pub tweak: fn(&mut KCfg),
     /// Drop the ring at a drawn position instead of polling to quiescence.
     pub p_ring_drop_early: u32,
     pub faults: bool,
@@ -63,6 +74,7 @@ pub struct Profile {
     pub direct: bool,
     pub sqpoll: bool,
     pub never_complete: bool,
+    pub force_pool: bool,
 }
 
 pub const BASE: Profile = Profile {
@@ -82,12 +94,16 @@ pub const BASE: Profile = Profile {
     w_closefd: 1,
     w_relbuf: 1,
     w_stdio: 0,
+    w_edit: 0,
+    w_bufio: 0,
+    tweak: |_| {},
     p_ring_drop_early: 10,
     faults: true,
     pools: true,
     direct: true,
     sqpoll: true,
     never_complete: false,
+    force_pool: false,
 };
 
 pub struct Engine {
@@ -96,7 +112,7 @@ pub struct Engine {
     /// order; on a panic everything is leaked instead of dropped mid-unwind.
     pub w: std::mem::ManuallyDrop<World>,
     pub tasks: std::mem::ManuallyDrop<Vec<Task>>,
-    pub bufs: std::mem::ManuallyDrop<Vec<a10::io::ReadBuf>>,
+    pub bufs: std::mem::ManuallyDrop<Vec<HeldBuf>>,
     pub ring_id: usize,
     pub ring_alive: bool,
     pub sq_entries: u32,
@@ -159,6 +175,7 @@ impl Engine {
     /// Build the ring and the initial objects.
     pub fn new(prof: Profile) -> Option<Engine> {
         let mut kcfg = draw_kcfg(prof.faults);
+        (prof.tweak)(&mut kcfg);
         let sq = tape::pick(site::GEOM, prof.sq_sizes);
         let cq = sq * tape::pick(site::GEOM, prof.cq_mults);
         if prof.wrap_counters {
@@ -202,7 +219,7 @@ impl Engine {
         for _ in 0..(1 + tape::choose(site::GEOM, 3)) {
             w.new_fd();
         }
-        if prof.pools && tape::chance(site::GEOM, 2, 3) {
+        if prof.pools && (prof.force_pool || tape::chance(site::GEOM, 2, 3)) {
             let size = tape::pick(site::GEOM, &[2u16, 1, 4, 8]);
             let buf = tape::pick(site::GEOM, &[16u32, 8, 64]);
             match alloc::a10(|| a10::io::ReadBufPool::new(w.sq.clone(), size, buf)) {
@@ -377,7 +394,10 @@ impl Engine {
                     let slot = self.w.add_fd(fd);
                     ev!("h op#{id} produced descriptor -> fd-slot {slot}");
                 }
-                Produced::ReadBuf(b) => self.bufs.push(b),
+                Produced::ReadBuf(b) => {
+                    let model = b.as_slice().to_vec();
+                    self.bufs.push(HeldBuf { buf: b, model });
+                }
                 Produced::Signals(s) => ops::drop_produced(Produced::Signals(s)),
             }
         }
@@ -847,8 +867,18 @@ impl Engine {
         }
         let i = tape::choose(site::TARGET, self.bufs.len() as u32) as usize;
         let b = self.bufs.swap_remove(i);
-        ev!("h drop readbuf");
-        alloc::a10(|| drop(b));
+        let explicit = tape::choose(site::TARGET, 2) == 1;
+        ev!("h {} readbuf", if explicit { "release" } else { "drop" });
+        let mut buf = b.buf;
+        alloc::a10(|| {
+            if explicit {
+                buf.release();
+                // Released buffers are empty and can be released/dropped again.
+                assert!(buf.is_empty());
+                buf.release();
+            }
+            drop(buf);
+        });
     }
 
     pub fn stdio(&mut self) {
@@ -860,6 +890,305 @@ impl Engine {
             1 => drop(a10::io::stdout(sq)),
             _ => drop(a10::io::stderr(sq)),
         });
+    }
+
+    /// Edit a held `ReadBuf` and compare with the bounded byte vector model.
+    pub fn edit_buf(&mut self) {
+        use std::ops::Bound;
+        if self.bufs.is_empty() {
+            return;
+        }
+        let i = tape::choose(site::TARGET, self.bufs.len() as u32) as usize;
+        let cap = self.bufs[i].buf.capacity();
+        let len = self.bufs[i].model.len();
+        let owned = self.owned_bid(i).is_some();
+        if !owned {
+            return;
+        }
+        stats::inc(C::probe_readbuf_edit);
+        let which = tape::choose(site::EDIT, 8);
+        let pick_idx = |max: usize| -> usize {
+            // Values around the interesting boundaries.
+            match tape::choose(site::EDIT, 6) {
+                0 => 0,
+                1 => max,
+                2 => max / 2,
+                3 => max + 1,
+                4 => usize::MAX,
+                _ => tape::choose(site::EDIT, max as u32 + 2) as usize,
+            }
+        };
+        let hb = &mut self.bufs[i];
+        let what: String;
+        // Run the call on both; a panic on one side must be a panic on the other.
+        let (got, want): (Result<(), ()>, Result<(), ()>) = match which {
+            0 => {
+                let n = pick_idx(len);
+                what = format!("truncate({n})");
+                alloc::a10(|| hb.buf.truncate(n));
+                hb.model.truncate(n);
+                (Ok(()), Ok(()))
+            }
+            1 => {
+                what = "clear()".to_string();
+                alloc::a10(|| hb.buf.clear());
+                hb.model.clear();
+                (Ok(()), Ok(()))
+            }
+            2 | 3 => {
+                let a = pick_idx(len);
+                let b = pick_idx(len);
+                let forms: [(Bound<usize>, Bound<usize>); 6] = [
+                    (Bound::Included(a), Bound::Excluded(b)),
+                    (Bound::Unbounded, Bound::Excluded(b)),
+                    (Bound::Included(a), Bound::Unbounded),
+                    (Bound::Unbounded, Bound::Unbounded),
+                    (Bound::Included(a), Bound::Included(b)),
+                    (Bound::Excluded(a), Bound::Excluded(b)),
+                ];
+                let r = forms[tape::choose(site::EDIT, 6) as usize];
+                what = format!("remove({r:?})");
+                // Bounds whose +1 overflows panic in both (arithmetic overflow).
+                let g = std::panic::catch_unwind(std::panic::AssertUnwindSafe(|| {
+                    alloc::a10(|| hb.buf.remove(r));
+                }))
+                .map_err(|_| ());
+                let w = std::panic::catch_unwind(std::panic::AssertUnwindSafe(|| {
+                    hb.model.drain(r);
+                }))
+                .map_err(|_| ());
+                (g, w)
+            }
+            4 => {
+                let extra = tape::choose(site::EDIT, cap as u32 + 3) as usize;
+                let data: Vec<u8> = (0..extra).map(|x| 0x40 + x as u8).collect();
+                what = format!("extend_from_slice({extra} bytes)");
+                let g = alloc::a10(|| hb.buf.extend_from_slice(&data));
+                let w = if hb.model.len() + extra <= cap {
+                    hb.model.extend_from_slice(&data);
+                    Ok(())
+                } else {
+                    Err(())
+                };
+                (g, w)
+            }
+            5 => {
+                // Write into the spare capacity, then set_len.
+                let spare = cap - len;
+                let n = tape::choose(site::EDIT, spare as u32 + 1) as usize;
+                what = format!("spare_capacity_mut()[..{n}] + set_len({})", len + n);
+                alloc::a10(|| {
+                    let s = hb.buf.spare_capacity_mut();
+                    assert!(s.len() == spare, "spare capacity is {} instead of {spare}", s.len());
+                    for (k, b) in s[..n].iter_mut().enumerate() {
+                        b.write(0x70 + k as u8);
+                    }
+                    unsafe { hb.buf.set_len(len + n) };
+                });
+                hb.model.extend((0..n).map(|k| 0x70 + k as u8));
+                (Ok(()), Ok(()))
+            }
+            6 => {
+                what = "as_mut_slice() writes".to_string();
+                alloc::a10(|| {
+                    for b in hb.buf.as_mut_slice() {
+                        *b = b.wrapping_add(1);
+                    }
+                });
+                for b in &mut hb.model {
+                    *b = b.wrapping_add(1);
+                }
+                (Ok(()), Ok(()))
+            }
+            _ => {
+                let n = tape::choose(site::EDIT, len as u32 + 1) as usize;
+                what = format!("set_len({n})");
+                alloc::a10(|| unsafe { hb.buf.set_len(n) });
+                hb.model.truncate(n);
+                (Ok(()), Ok(()))
+            }
+        };
+        // Reset a possibly recorded panic message.
+        if got.is_err() {
+            crate::run::clear_panic();
+        }
+        ev!("h readbuf {what} -> {got:?}");
+        trace(&[tag::STEP, 100 + which]);
+        if got != want {
+            violation(
+                "readbuf.model-mismatch",
+                format!("{what} on a buffer of {len} bytes (capacity {cap}): ReadBuf {got:?}, byte vector model {want:?}"),
+            );
+        }
+        let hb = &self.bufs[i];
+        if hb.buf.as_slice() != hb.model.as_slice() || hb.buf.len() != hb.model.len() {
+            violation(
+                "readbuf.model-mismatch",
+                format!(
+                    "after {what} on a buffer of {len} bytes: ReadBuf holds {:?}, model {:?}",
+                    hb.buf.as_slice(),
+                    hb.model
+                ),
+            );
+        }
+    }
+
+    /// Pool slot a held buffer owns, computed from its base pointer.
+    fn owned_bid(&self, i: usize) -> Option<u16> {
+        let hb = &self.bufs[i];
+        let ptr = hb.buf.as_slice().as_ptr() as usize;
+        kernel::with(|k| {
+            for p in k.rings[self.ring_id].pbufs.values() {
+                if let Some(base) = p.base {
+                    let size = p.buf_size as usize * p.entries as usize;
+                    if ptr >= base && ptr < base + size {
+                        return Some(((ptr - base) / p.buf_size as usize) as u16);
+                    }
+                }
+            }
+            None
+        })
+    }
+
+    /// Use a held buffer in I/O again: a second read into its spare capacity,
+    /// or a write of its contents.
+    pub fn buf_io(&mut self) {
+        if self.bufs.is_empty() || self.w.live_fds().is_empty() {
+            return;
+        }
+        if self.live_tasks().len() >= self.prof.max_tasks {
+            return;
+        }
+        let i = tape::choose(site::TARGET, self.bufs.len() as u32) as usize;
+        if self.owned_bid(i).is_none() {
+            return;
+        }
+        let live = self.w.live_fds();
+        let f = live[tape::choose(site::TARGET, live.len() as u32) as usize];
+        let hb = self.bufs.swap_remove(i);
+        let id = self.tasks.len() as u32;
+        let second_read = tape::choose(site::OPKIND, 2) == 0;
+        let made = ops::make_buf_io(&self.w, f, hb.buf, hb.model, second_read);
+        stats::inc(C::total_ops_created);
+        if second_read {
+            stats::inc(C::probe_pool_second_read);
+        }
+        ev!("h create op#{id} {} on fd-slot {f}", made.name);
+        self.tasks.push(Task {
+            id,
+            kind: if second_read { Kind::ReadVec } else { Kind::WriteVec },
+            name: made.name,
+            task: Some(made.task),
+            expect: made.expect,
+            fd: Some(f),
+            wakers: TaskWakers::new(id),
+            polled: false,
+            last_pending: false,
+            last_item: false,
+            finished: false,
+            dropped: false,
+            outputs: Vec::new(),
+            matched: 0,
+            blocked_on_sq: false,
+        });
+    }
+
+    /// C08: the pool is partitioned between the kernel and the live buffers.
+    pub fn check_pools(&mut self) {
+        if self.w.pools.is_empty() && self.bufs.is_empty() {
+            return;
+        }
+        let r = self.ring_id;
+        kernel::with(|k| k.observe_pbufs(r));
+        let mut owned: Vec<(u16, usize)> = Vec::new();
+        for i in 0..self.bufs.len() {
+            if let Some(bid) = self.owned_bid(i) {
+                if let Some((_, other)) = owned.iter().find(|(b, _)| *b == bid) {
+                    violation(
+                        "pool.shared-slot",
+                        format!("two live ReadBufs (#{other} and #{i}) own pool buffer #{bid}"),
+                    );
+                }
+                owned.push((bid, i));
+            }
+            let hb = &self.bufs[i];
+            if hb.buf.as_slice() != hb.model.as_slice() {
+                violation(
+                    "pool.overwritten",
+                    format!(
+                        "bytes held in a ReadBuf changed behind its back: now {:?}, were {:?}",
+                        hb.buf.as_slice(),
+                        hb.model
+                    ),
+                );
+                // Report once.
+                self.bufs[i].model = self.bufs[i].buf.as_slice().to_vec();
+            }
+        }
+        let problems: Vec<String> = kernel::with(|k| {
+            let mut v = Vec::new();
+            for p in k.rings[r].pbufs.values() {
+                let window: Vec<u16> = p.window();
+                for (bid, _) in &owned {
+                    if window.contains(bid) {
+                        v.push(format!("pool buffer #{bid} is owned by a live ReadBuf and offered to the kernel at the same time"));
+                    }
+                    if !p.handed_out.contains(bid) {
+                        v.push(format!("a live ReadBuf owns pool buffer #{bid} which the kernel never handed out"));
+                    }
+                }
+            }
+            v
+        });
+        for p in problems {
+            violation("pool.double-offer", p);
+        }
+    }
+
+    pub fn drop_all_bufs(&mut self) {
+        while let Some(b) = self.bufs.pop() {
+            alloc::a10(|| drop(b.buf));
+        }
+    }
+
+    /// At quiescence, with no buffer alive and nothing in flight, the kernel
+    /// can use every buffer of the pool again.
+    pub fn check_pool_conservation(&mut self) {
+        let r = self.ring_id;
+        if !self.bufs.is_empty() {
+            return;
+        }
+        kernel::with(|k| k.observe_pbufs(r));
+        let lost: Vec<(u16, bool)> = kernel::with(|k| {
+            if k.rings[r].inflight_count() > 0 {
+                return Vec::new();
+            }
+            let mut v = Vec::new();
+            for p in k.rings[r].pbufs.values() {
+                for bid in &p.handed_out {
+                    // Was it handed to an operation that had been dropped?
+                    let abandoned = k.records.iter().any(|rec| {
+                        rec.buf_ids.contains(bid) && k.dropped_ops.contains(&rec.by_op)
+                    });
+                    v.push((*bid, abandoned));
+                }
+            }
+            v
+        });
+        for (bid, abandoned) in lost {
+            if abandoned {
+                stats::inc(C::probe_pool_buffer_to_abandoned_op);
+                violation(
+                    "pool.lost-buffer.abandoned-op",
+                    format!("pool buffer #{bid} was selected by the kernel for an operation that had been dropped and is never given back"),
+                );
+            } else {
+                violation(
+                    "pool.lost-buffer",
+                    format!("pool buffer #{bid} is neither offered to the kernel nor owned by a ReadBuf although no buffer is alive and nothing is in flight"),
+                );
+            }
+        }
     }
 
     /// One step of the generated program.
@@ -877,6 +1206,8 @@ impl Engine {
             p.w_closefd,
             p.w_relbuf,
             p.w_stdio,
+            p.w_edit,
+            p.w_bufio,
         ];
         let a = tape::weighted(site::STEP, &weights);
         trace(&[tag::STEP, a as u32]);
@@ -923,8 +1254,11 @@ impl Engine {
             5 => self.drop_fd(false),
             6 => self.drop_fd(true),
             7 => self.release_buf(),
-            _ => self.stdio(),
+            8 => self.stdio(),
+            9 => self.edit_buf(),
+            _ => self.buf_io(),
         }
+        self.check_pools();
         self.collect_alloc_violations();
     }
 
@@ -1022,31 +1356,64 @@ impl Engine {
         }
     }
 
-    /// Drop everything that is left, the ring at a drawn position.
-    pub fn teardown(&mut self, ring_first: bool) {
-        ev!("h teardown ring_first={ring_first}");
-        if ring_first {
-            self.drop_ring();
+    /// Drop everything that is left. With `shuffle` the groups {tasks,
+    /// descriptors, ring, buffers, pools} are dropped in a drawn order (tasks
+    /// before the descriptors they borrow, as safe code must); otherwise the
+    /// ring goes last. Returns true if descriptors were dropped after the ring.
+    pub fn teardown(&mut self, shuffle: bool) -> bool {
+        let mut groups = vec!['T', 'F', 'B', 'P', 'R'];
+        let mut order = Vec::new();
+        if shuffle {
+            while !groups.is_empty() {
+                let allowed: Vec<usize> = (0..groups.len())
+                    .filter(|i| groups[*i] != 'F' || !groups.contains(&'T'))
+                    .collect();
+                let j = allowed[tape::choose(site::DROP, allowed.len() as u32) as usize];
+                order.push(groups.remove(j));
+            }
+        } else {
+            order = groups;
         }
-        // Tasks before the descriptors they borrow.
-        let mut order: Vec<usize> = self.live_tasks();
-        while !order.is_empty() {
-            let j = tape::choose(site::DROP, order.len() as u32) as usize;
-            let i = order.remove(j);
-            self.drop_task(i);
+        ev!("h teardown order {}", order.iter().collect::<String>());
+        trace(&[tag::DROP, 1000 + order.iter().position(|c| *c == 'R').unwrap() as u32]);
+        let mut ring_gone = false;
+        let mut fds_after_ring = false;
+        for g in order {
+            match g {
+                'T' => {
+                    let mut live: Vec<usize> = self.live_tasks();
+                    while !live.is_empty() {
+                        let j = tape::choose(site::DROP, live.len() as u32) as usize;
+                        let i = live.remove(j);
+                        self.drop_task(i);
+                    }
+                }
+                'F' => {
+                    for f in self.w.live_fds() {
+                        let fd = self.w.fds[f].take().unwrap();
+                        if ring_gone {
+                            fds_after_ring = true;
+                            stats::inc(C::probe_handle_used_after_ring_drop);
+                        }
+                        alloc::a10(|| drop(fd));
+                    }
+                }
+                'B' => {
+                    while let Some(b) = self.bufs.pop() {
+                        alloc::a10(|| drop(b.buf));
+                    }
+                }
+                'P' => {
+                    let pools = std::mem::take(&mut self.w.pools);
+                    alloc::a10(|| drop(pools));
+                }
+                _ => {
+                    self.drop_ring();
+                    ring_gone = true;
+                }
+            }
         }
-        while let Some(b) = self.bufs.pop() {
-            alloc::a10(|| drop(b));
-        }
-        for f in self.w.live_fds() {
-            let fd = self.w.fds[f].take().unwrap();
-            alloc::a10(|| drop(fd));
-        }
-        let pools = std::mem::take(&mut self.w.pools);
-        alloc::a10(|| drop(pools));
-        if !ring_first {
-            self.drop_ring();
-        }
+        fds_after_ring
     }
 
     pub fn drop_ring(&mut self) {
@@ -1064,8 +1431,9 @@ impl Engine {
     }
 
     /// Tear everything down and do the final accounting.
-    pub fn end(mut self, ring_first: bool, expect_clean_fds: bool) {
-        self.teardown(ring_first);
+    pub fn end(mut self, shuffle: bool, quiesced: bool) {
+        let ring_first = self.teardown(shuffle);
+        let expect_clean_fds = quiesced && !ring_first;
         self.collect_alloc_violations();
         let r = self.ring_id;
         let Engine { w, tasks, bufs, .. } = self;
@@ -1073,7 +1441,7 @@ impl Engine {
         drop(std::mem::ManuallyDrop::into_inner(bufs));
         let World { sq, .. } = std::mem::ManuallyDrop::into_inner(w);
         alloc::a10(|| drop(sq));
-        final_checks(r, expect_clean_fds);
+        final_checks(r, expect_clean_fds, ring_first);
     }
 
     pub fn collect_alloc_violations(&mut self) {
@@ -1084,7 +1452,7 @@ impl Engine {
 }
 
 /// Final accounting once every handle is gone.
-pub fn final_checks(r: usize, expect_clean_fds: bool) {
+pub fn final_checks(r: usize, expect_clean_fds: bool, ring_first: bool) {
     {
         kernel::with(|k| k.refresh_ring_fds());
         let (maps, fd_closed, open_fds, slots, pbufs, inflight) = kernel::with(|k| {
@@ -1122,6 +1490,29 @@ pub fn final_checks(r: usize, expect_clean_fds: bool) {
                 "teardown.registration-left",
                 format!("{pbufs} buffer ring(s) still registered"),
             );
+        }
+        if ring_first && !expect_clean_fds && !report::has_violation() {
+            // Descriptors of AsyncFds that were dropped after the Ring.
+            let abandoned = kernel::with(|k| k.undelivered_to_dropped(r));
+            let left: Vec<i32> = open_fds
+                .iter()
+                .copied()
+                .filter(|f| !abandoned.contains(&(*f, false)))
+                .collect();
+            let left_slots: Vec<u32> = slots
+                .iter()
+                .copied()
+                .filter(|s| !abandoned.contains(&(*s as i32, true)))
+                .collect();
+            if !left.is_empty() || !left_slots.is_empty() {
+                violation(
+                    "teardown.fd-left.after-ring",
+                    format!(
+                        "{} descriptor(s) of AsyncFds dropped after the Ring are never closed (their CLOSE request is queued to a ring nobody submits)",
+                        left.len() + left_slots.len()
+                    ),
+                );
+            }
         }
         if expect_clean_fds {
             // Descriptors the kernel created for operations that were dropped
